@@ -14,7 +14,7 @@ func init() {
 }
 
 func runC20(p *core.Prog, r *core.Report) {
-	r.Explain = "Decides the structure of StorageEngine.get (shared by Get, GetBytes, GetStream, GetRangeStream, ReadObject, ReadPayloadRange) on all CFG paths: (R1) a shard is read with the metadata check bypassed only if that shard works without a metabase, or after some metabase listed the object while its data was missing there — bypassing a healthy metabase otherwise overrides its 'removed' verdict; (R2) the first pass leaves a shard for the next one only on a not-found / incomplete-split-info answer or after the answer was tested against every stop class (parent, already removed, out of range, expired): a removal verdict is never treated as a shard failure, and a shard failure never ends the search; it returns from inside the loop only with success, a stop class, or complete split info; (R3) both passes visit every shard: the loops are left only by exhaustion or return (no early break that would hide a later shard); (R4) every reading entry point goes through get. Not covered: which shard holds what after a history of mode changes and failures (behavioural)."
+	r.Explain = "Decides the structure of StorageEngine.get (shared by Get, GetBytes, GetStream, GetRangeStream, ReadObject, ReadPayloadRange) on all CFG paths: (R1) a shard is read with the metadata check bypassed only if that shard works without a metabase, or after some metabase listed the object while its data was missing there — bypassing a healthy metabase otherwise overrides its 'removed' verdict; (R2) the first pass leaves a shard for the next one only on a not-found / incomplete-split-info answer or after the answer was tested against every stop class (parent, already removed, out of range, expired): a removal verdict is never treated as a shard failure, and a shard failure never ends the search; it returns from inside the loop only with success, a stop class, or complete split info; (R3) both passes visit every shard: the loops are left only by exhaustion or return (no early break that would hide a later shard); (R4) every reading entry point goes through get; (R5) an engine removal's presence scan over the shards returns success from inside the loop only on 'already removed' — 'not found' on one shard (also the answer of a per-shard garbage mark) never ends it, so a retried removal reaches the shards the first attempt missed; (R6) putToShard stores on a shard only after that shard's Exists answered (false, nil): any error answer — including the not-found a garbage mark produces — makes the caller try another shard instead of 'storing' where the object stays unreadable (shared with C19). Not covered: which shard holds what after a history of mode changes and failures (behavioural)."
 	g := p.Func(engT + "get")
 	if g == nil {
 		r.Fatalf("C20: StorageEngine.get not found")
@@ -184,6 +184,50 @@ func runC20(p *core.Prog, r *core.Report) {
 		}
 		r3.Check(early == 0, core.FuncName(g)+"#"+name+"-loop!no-early-exit", p.Pos(h.Instrs[0].Pos()), "left only by exhaustion or return", "the "+name+" loop over the shards can be left early without returning: shards later in the order are never asked and an object held there is reported as not found")
 	}
+	// ---------------- R5 a removal asks every shard
+	r5 := r.Rule("C20.R5", "engine removal: the presence scan over the shards ends with success only on 'already removed' (a tombstone is on every shard); 'not found' on one shard — which is also what a per-shard garbage mark answers — never ends it", 1)
+	if dfn := p.Func(engT + "processAddrDeleteOnShards"); dfn == nil {
+		r.Fatalf("C20.R5: processAddrDeleteOnShards not found")
+	} else {
+		ex := core.CallSites([]*ssa.Function{dfn}, func(s core.Site) bool { return strings.HasSuffix(s.Name, "shard.Shard).Exists") })
+		if len(ex) == 0 {
+			r.Fatalf("C20.R5: no presence check in processAddrDeleteOnShards")
+		} else {
+			var hdr *ssa.BasicBlock
+			cb := ex[0].Call.Block()
+			for _, hb := range dfn.Blocks {
+				back := false
+				for _, pr := range hb.Preds {
+					if hb.Dominates(pr) {
+						back = true
+					}
+				}
+				if back && hb.Dominates(cb) && reaches(cb, hb) && (hdr == nil || hdr.Dominates(hb)) {
+					hdr = hb
+				}
+			}
+			removed := errIs("shard-says-already-removed", true, st+"ErrObjectAlreadyRemoved")
+			n := core.CheckEffectsFn(p, r5, dfn, core.EffectRule{Guards: []core.Guard{removed}, Effect: func(_ *core.Prog, in ssa.Instruction) (string, bool) {
+				ret, ok := in.(*ssa.Return)
+				if !ok || hdr == nil || !hdr.Dominates(ret.Block()) || len(ret.Results) == 0 {
+					return "", false
+				}
+				for _, sc := range hdr.Succs {
+					if !(hdr.Dominates(sc) && reaches(sc, hdr)) && sc.Dominates(ret.Block()) {
+						return "", false // after the loop
+					}
+				}
+				c, isC := ret.Results[len(ret.Results)-1].(*ssa.Const)
+				return "success-return-inside-the-presence-scan", isC && c.IsNil()
+			}})
+			if n == 0 {
+				r5.OKTrivial(core.FuncName(dfn)+"#no-early-success", p.Pos(dfn.Pos()), "the presence scan never returns success from inside the loop")
+			}
+		}
+	}
+	// ---------------- R6 putToShard
+	r6 := r.Rule("C20.R6", "putToShard calls the shard's Put only after the shard's Exists answered (false, nil)", 1)
+	putOnlyWhereAbsent(p, r, r6)
 	// ---------------- R4 entry points go through get
 	r4 := r.Rule("C20.R4", "every reading entry point of the engine goes through get", 5)
 	for _, n := range []string{"getInt", "GetBytes", "GetStream", "getRangeStream", "ReadObject", "ReadPayloadRange"} {
@@ -194,4 +238,19 @@ func runC20(p *core.Prog, r *core.Report) {
 		}
 		r4.Check(len(core.CallSites([]*ssa.Function{fn}, func(s core.Site) bool { return s.Name == engT+"get" })) == 1, engT+n+"#get", p.Pos(fn.Pos()), "reads through get", n+" no longer reads through StorageEngine.get")
 	}
+}
+
+// putOnlyWhereAbsent: shared by C20.R6 and C19.R5.
+func putOnlyWhereAbsent(p *core.Prog, r *core.Report, h *core.RuleH) {
+	fn := p.Func(engT + "putToShard")
+	if fn == nil {
+		r.Fatalf("%s: putToShard not found", h.ID())
+		return
+	}
+	ex := func(s core.Site) bool { return strings.HasSuffix(s.Name, "shard.Shard).Exists") }
+	gs := []core.Guard{{Name: "shard-says-absent", Match: ex, Comps: []core.Comp{{Result: 0, Kind: core.IsFalse}, {Result: 1, Kind: core.ErrNil}}}}
+	core.CheckEffectsFn(p, h, fn, core.EffectRule{Min: 1, Guards: gs, Effect: func(_ *core.Prog, in ssa.Instruction) (string, bool) {
+		c, ok := in.(ssa.CallInstruction)
+		return "shard.Put", ok && strings.HasSuffix(core.CalleeName(c), "shard.Shard).Put")
+	}})
 }
